@@ -489,6 +489,32 @@ def problem_lines(p, minx=None):
     return out
 
 
+def problem_from_lines(lines):
+    """inverse of problem_lines (replays): the problem dict (exact: every hex double is a dyadic rational) and minx"""
+    from .core import hex2float
+    p, minx = {"rows": [], "cov": [], "rhs": [], "family": "replay"}, None
+    for l in lines:
+        t = l.split()
+        if not t:
+            continue
+        if t[0] == "problem":
+            p["m"], p["n"] = int(t[1]), int(t[2])
+        elif t[0] == "row":
+            p["rows"].append([(int(t[2 + 2 * k]), F(hex2float(t[3 + 2 * k]))) for k in range(int(t[1]))])
+        elif t[0] == "cov":
+            p["cov"].append({"dim": int(t[1]), "width": int(t[2]), "v": [F(hex2float(x)) for x in t[3:]]})
+        elif t[0] == "rhs":
+            p["rhs"] = [F(hex2float(x)) for x in t[1:]]
+        elif t[0] == "minx":
+            minx = None if t[1] == "none" else "all" if t[1] == "all" else [int(x) for x in t[2:2 + int(t[1])]]
+        elif t[0] == "end":
+            break
+    p["kernel"] = kernel(dense(p), p["n"])
+    p["defect"] = len(p["kernel"])
+    p["unit_cov"] = all(b["width"] == 0 and all(x == 1 for x in b["v"]) for b in p["cov"])
+    return p, minx
+
+
 def run_cases_par(exe, cases, jobs=4, args=()):
     """`core.run_cases` over `jobs` processes (contiguous chunks; outputs and crash indices as for one process)"""
     if jobs <= 1 or len(cases) < 4 * jobs:
